@@ -129,6 +129,16 @@ def probe(fail):
         fail("shape assignment value")
     if not records and not np.shares_memory(t8.data, d8):
         fail("untracked shape assignment copied the data")
+    # 9. values and dtypes do not depend on tracking: Python-scalar operands with non-default dtypes (the result dtype must be NumPy's)
+    for dt in ("float32", "float16", "int8"):
+        a9 = np.array([1, 2, 3], dtype=dt)
+        t9 = mg.tensor(a9)
+        for lab, ft, fa in (("x*2.0", lambda t: t * 2.0, lambda a: a * 2.0), ("x+1", lambda t: t + 1, lambda a: a + 1), ("1/x", lambda t: 1 / t, lambda a: 1 / a),
+                            ("mg.add(x,1.5)", lambda t: mg.add(t, 1.5), lambda a: np.add(a, 1.5)), ("np.multiply(x,2)", lambda t: np.multiply(t, 2), lambda a: np.multiply(a, 2)),
+                            ("x-True", lambda t: t - True, lambda a: a - True)):
+            rt, ra = ft(t9), fa(a9)
+            if rt.dtype != ra.dtype or not np.array_equal(rt.data, ra):
+                fail("%s on a %s tensor gives dtype %s, NumPy gives %s (tracking=%s)" % (lab, dt, rt.dtype, ra.dtype, records))
     # 8. augmented assignment and out= write into the tensor's own memory when untracked
     x9 = fresh(with_grad=False)
     d9 = x9.data
